@@ -77,8 +77,15 @@ def torch_checks(ck):
         tau = rng.choice([1.0, 2.0, 0.5, 3.0, 10.0, 1 / 0.03, 7.0])
         lead = [rng.randrange(1, 4) for _ in range(rng.randrange(1, 4))]
         x = torch.tensor(np.array([rng.randrange(2) for _ in range(int(np.prod(lead)) * n)]).reshape(*lead, n), dtype=torch.float64)
-        y = GroupSum(k, tau, device="cpu")(x)
-        case = {"kind": "torch", "k": k, "g": g, "tau": tau, "shape": lead + [n]}
+        if ci % 2:
+            # tau assigned after construction (temperature schedules do this): forward must use the current value
+            gs = GroupSum(k, rng.choice([1.0, 4.0, 0.25]), device="cpu")
+            gs(x)
+            gs.tau = tau
+            y = gs(x)
+        else:
+            y = GroupSum(k, tau, device="cpu")(x)
+        case = {"kind": "torch", "k": k, "g": g, "tau": tau, "shape": lead + [n], "tau_set_after_construction": bool(ci % 2)}
         ck.case(case, nontrivial=g > 1, kind=f"torch_rank{len(lead) + 1}")
         if list(y.shape) != lead + [k]:
             ck.disagree("GroupSum output shape", case, observed=list(y.shape), signature={"what": "torch-shape"})
